@@ -984,10 +984,21 @@ pub trait QueryBuilder:
         sql: &mut dyn SqlWriter,
     ) {
         write!(sql, "CASE ").unwrap();
+        // the expression becomes the left operand of `=`
+        let expr_paren = !self.inner_expr_well_known_greater_precedence(
+            &order_expr.expr,
+            &Oper::BinOper(BinOper::Equal),
+        );
         let mut i = 0;
         for value in &values.0 {
             write!(sql, "WHEN ").unwrap();
+            if expr_paren {
+                write!(sql, "(").unwrap();
+            }
             self.prepare_simple_expr(&order_expr.expr, sql);
+            if expr_paren {
+                write!(sql, ")").unwrap();
+            }
             write!(sql, "=").unwrap();
             let value = self.value_to_string(value);
             write!(sql, "{value}").unwrap();
